@@ -106,6 +106,9 @@ Fixpoint env_cluster (cs : str) : option (N * str) :=
    LD_PRELOAD, ...), in order; they stay in front of the delegated command, every other assignment is dropped.
    The -S / --split-string paths delegate the string alone (as the code does). *)
 Definition sets_exec (t : str) : bool := Walker.sets_execution_var t.
+(* _split_string: env ends the -S string at a "#" comment and the words behind it still run: asked about *)
+Definition env_S (value : str) (rest : list str) : hres :=
+  if mem_ch 35 value then HAsk else HString (join [32] (value :: rest)).
 Fixpoint env_scan (kept : list str) (l : list str) : hres :=        (* l = tokens[i:] *)
   match l with
   | [] => HAllow
@@ -118,9 +121,9 @@ Fixpoint env_scan (kept : list str) (l : list str) : hres :=        (* l = token
             if mem_str nm ENV_LONG_WITH_ARG && is_none v then
               match r with
               | [] => HAsk
-              | value :: r' => if is "split-string" nm then HString (join [32] (value :: r')) else env_scan kept r'
+              | value :: r' => if is "split-string" nm then env_S value r' else env_scan kept r'
               end
-            else if is "split-string" nm then HString (join [32] (oval v :: r))
+            else if is "split-string" nm then env_S (oval v) r
             else env_scan kept r
         | _ => HAsk
         end
@@ -130,9 +133,9 @@ Fixpoint env_scan (kept : list str) (l : list str) : hres :=        (* l = token
         | Some (c, []) =>
             match r with
             | [] => HAsk
-            | value :: r' => if N.eqb c 83 then HString (join [32] (value :: r')) else env_scan kept r'
+            | value :: r' => if N.eqb c 83 then env_S value r' else env_scan kept r'
             end
-        | Some (c, value) => if N.eqb c 83 then HString (join [32] (value :: r)) else env_scan kept r
+        | Some (c, value) => if N.eqb c 83 then env_S value r else env_scan kept r
         end
       else if is "-" t then env_scan kept r
       else if has_eq t then env_scan (if sets_exec t then kept ++ [t] else kept) r
